@@ -90,32 +90,35 @@ def _worker(case):
 
 
 def undoable(cap):
-    """the hypothesis `Undoable` of FB.Rollback.rollBack_restores_files, evaluated on a captured state"""
+    """the hypothesis `Undoable P0 P r` of FB.Rollback.rollBack_restores_files, field by field, evaluated on a
+    captured state (P0 = the tree before the build, P = the tree when _roll_back starts)"""
     p0 = {n[0]: n for n in cap['before_build'] or []}
     p = {n[0]: n for n in cap['tree']}
     saved = [s[0] for s in cap['saved']]
     savedset = set(saved)
+    absent, new, old = set(cap['absent']), set(cap['newOutputs']), set(cap['oldOutputs'])
+
+    def removable(f):
+        return f not in old or f in absent
     if len(saved) != len(savedset):
-        return 'saved twice'
+        return 'saved_nodup'
     for s in cap['saved']:
         n = p0.get(s[0])
         if not n or n[1] != 'file' or [n[2], n[3]] != [s[1], s[2]]:
-            return 'saved entry is not the pre-build file'
-    absent = set(cap['absent'])
-    new, old = set(cap['newOutputs']), set(cap['oldOutputs'])
+            return 'saved_pre'
     for path, n in p0.items():
         if n[1] == 'file' and p.get(path) != n and path not in savedset:
-            return 'a pre-build file changed without being saved'
+            return 'kept'
     for path, n in p.items():
-        if n[1] == 'file' and p0.get(path) != n:
-            if path in savedset:
-                continue
-            if path not in new or not (path not in old or path in absent):
-                return 'a new file would survive'
+        if n[1] == 'file' and p0.get(path) != n and path not in savedset and not (path in new and removable(path)):
+            return 'fresh'
     for path in new:
         n = p0.get(path)
-        if n and n[1] == 'file' and path not in savedset and p.get(path) != n:
-            return 'an overwritten file was not saved'
+        if removable(path) and n and n[1] == 'file' and path not in savedset:
+            return 'moved'
+    for path in saved:
+        if (p.get(path) or [None, None])[1] == 'dir':
+            return 'nodir'
     return None
 
 
